@@ -646,4 +646,419 @@ theorem Txn.expire_np (sch : SchemaEval) (hs : SchNoPanic sch) (t : Txn) (nowMs 
   np_auto [Txn.expire.go_np sch hs _ _ _ _ _]
 
 
+/-! ### driver calls -/
+
+theorem mapM_np {α β} (f : α → Res β) (hf : ∀ a, NP (f a)) (l : List α) : NP (l.mapM f) := by
+  induction l with
+  | nil => rw [List.mapM_nil]; exact NP_ok _
+  | cons a r ih =>
+    rw [List.mapM_cons]
+    cases h1 : f a with
+    | error e => exact NP_of_error (hf a) h1
+    | ok b =>
+      cases h2 : List.mapM f r with
+      | error e => exact NP_of_error ih h2
+      | ok bs => exact NP_ok _
+
+theorem projList_np (sch : SchemaEval) (hs : SchNoPanic sch) (proj : Option Doc) (ds : List Doc) :
+    NP (projList sch proj ds) := by
+  unfold projList
+  split
+  · exact NP_ok _
+  · exact mapM_np _ (fun d => Project_np sch hs d _) _
+
+theorem validateReplacement_np (d : Doc) : NP (validateReplacement d) := by
+  unfold validateReplacement
+  np_auto []
+
+theorem projOpt_np (sch : SchemaEval) (hs : SchNoPanic sch) (proj : Option Doc) (d : Option Doc) :
+    NP (projOpt sch proj d) := by
+  unfold projOpt
+  np_auto [Project_np sch hs _ _]
+
+theorem filterPlain_np (sch : SchemaEval) (hs : SchNoPanic sch) (q : Doc) (l : List Doc) :
+    NP (filterPlain sch q l) := by
+  induction l with
+  | nil => exact NP_ok _
+  | cons d r ih =>
+    unfold filterPlain
+    np_auto [ih, Match_np sch hs _ _]
+
+theorem acOf_sch (sch : SchemaEval) : (acOf sch).sch = sch := rfl
+
+theorem runCall_np (sch : SchemaEval) (hs : SchNoPanic sch) (t0 : Txn) (nu : Nu) (c : Call) :
+    NP (runCall sch t0 nu c) := by
+  have hs' : SchNoPanic (acOf sch).sch := hs
+  unfold runCall
+  simp only
+  cases c
+  all_goals simp only
+  all_goals
+    np_auto [Txn.insert_np sch _ _ _ _ _, Txn.find_np sch hs _ _ _ _ _ _, projList_np sch hs _ _, Txn.count_np _ _,
+      Txn.update_np (acOf sch) hs' _ _ _ _ _ _ _ _ _ _, validateReplacement_np _,
+      Txn.replace_np (acOf sch) hs' _ _ _ _ _ _ _, Txn.delete_np sch hs _ _ _ _ _ _ _, projOpt_np sch hs _ _,
+      Txn.bulk_np (acOf sch) _ _ _ _ _, Txn.createIndex_np sch hs _ _ _ _, Txn.dropIndex_np _ _ _,
+      Txn.dropIndexByKey_np _ _ _, Txn.listIndexes_np _ _, Txn.create_np _ _, Txn.drop_np _ _ _,
+      Handle.validate_np _ _, filterPlain_np sch hs _ _, Txn.expire_np sch hs _ _ _]
+  · rename_i heq1 _ e heq2
+    have := Txn.insert_result_np sch hs _ _ _ _ _ _ _ _ heq1
+    intro site h; cases h
+    exact this site heq2
+
+/-- errors a reply carries (insertMany's error, the bulk-write error list) are no panics -/
+def Reply.NP : Reply → Prop
+  | .ids _ err => OptNP err
+  | .bulk _ _ _ _ _ _ errs => ∀ p ∈ errs, ∀ site, p.2 ≠ .panic site
+  | _ => True
+
+/-- the reply fold of `BulkWrite` -/
+def bulkReply (idx : List (Nat × TResult × Operation)) (init : Reply) : Reply :=
+  idx.foldl (fun acc (i, (r, op)) =>
+    match acc with
+    | .bulk ins mat mod del ups uids errs =>
+      match r.error with
+      | some e => .bulk ins mat mod del ups uids (errs ++ [(i, e)])
+      | none =>
+        match op.opcode with
+        | .insert => .bulk (ins + r.modified.length) mat mod del ups uids errs
+        | .delete => .bulk ins mat mod (del + r.matched.length) ups uids errs
+        | _ =>
+          match r.upserted with
+          | some d => .bulk ins (mat + r.matched.length) (mod + r.modified.length) del (ups + 1) (uids ++ [(i, Get d "_id")]) errs
+          | none => .bulk ins (mat + r.matched.length) (mod + r.modified.length) del ups uids errs
+    | other => other) init
+
+theorem bulkReply_np (idx : List (Nat × TResult × Operation)) (init : Reply) (hi : init.NP)
+    (hr : ∀ p ∈ idx, TResult.NP p.2.1) : (bulkReply idx init).NP := by
+  induction idx generalizing init with
+  | nil => exact hi
+  | cons p r ih =>
+    obtain ⟨i, tr, op⟩ := p
+    unfold bulkReply
+    rw [List.foldl_cons]
+    apply ih
+    · have htr : TResult.NP tr := hr (i, tr, op) (List.mem_cons_self)
+      simp only
+      split
+      · rename_i ins mat mod del ups uids errs
+        split
+        · rename_i e he
+          intro p hp site
+          rcases List.mem_append.mp hp with h | h
+          · exact hi p h site
+          · cases List.mem_singleton.mp h
+            intro hc
+            simp only at hc
+            cases hc
+            exact htr site he
+        · split
+          · exact hi
+          · exact hi
+          · split <;> exact hi
+      · exact hi
+    · intro p hp; exact hr p (List.mem_cons_of_mem _ hp)
+
+theorem Reply.NP_bulk0 : (Reply.bulk 0 0 0 0 0 [] []).NP := by
+  intro p hp; cases hp
+
+theorem updReply_np (r : TResult) : (updReply r).NP := by
+  unfold updReply; split <;> trivial
+
+theorem runCall_reply_np (sch : SchemaEval) (hs : SchNoPanic sch) (t0 t : Txn) (nu nu' : Nu) (c : Call) (r : Reply)
+    (h : runCall sch t0 nu c = .ok (t, nu', r)) : r.NP := by
+  have hs' : SchNoPanic (acOf sch).sch := hs
+  unfold runCall at h
+  simp only at h
+  cases c
+  case insertMany hd docs ordered =>
+    simp only at h
+    split at h
+    · cases h
+    · rename_i heq; cases h
+      exact Txn.insert_result_np sch hs _ _ _ _ _ _ _ _ heq
+  case bulkWrite hd models ordered =>
+    simp only at h
+    split at h
+    · cases h
+    · split at h
+      · cases h
+      · rename_i t1 results nu1 heq
+        cases h
+        have hres := Txn.bulk_result_np (acOf sch) hs' _ _ _ _ _ _ _ _ heq
+        refine bulkReply_np ((List.range results.length).zip (results.zip (models.map BulkModel.toOp))) _ Reply.NP_bulk0 ?_
+        intro p hp
+        obtain ⟨i, tr, op⟩ := p
+        have h1 := (List.of_mem_zip hp).2
+        have h2 := (List.of_mem_zip h1).1
+        exact hres tr h2
+  all_goals
+    simp only at h
+    repeat' split at h
+    all_goals first | (cases h; done) | (cases h; trivial) | (cases h; exact updReply_np _)
+
+
+/-! ### fuel of `resolve` -/
+
+def cntD (l : List Char) : Nat := (l.filter (· == '$')).length
+
+theorem cntD_append (a b : List Char) : cntD (a ++ b) = cntD a + cntD b := by
+  simp [cntD, List.filter_append]
+
+theorem cntD_cons (c : Char) (l : List Char) : cntD (c :: l) = (if c == '$' then 1 else 0) + cntD l := by
+  unfold cntD
+  rw [List.filter_cons]
+  split <;> simp <;> omega
+
+theorem countDollar_eq (s : String) : countDollar s = cntD s.toList := rfl
+
+theorem cntD_drop_le (l : List Char) (n : Nat) : cntD (l.drop n) ≤ cntD l := by
+  conv => rhs; rw [← List.take_append_drop n l]
+  rw [cntD_append]; omega
+
+theorem cntD_take_le (l : List Char) (n : Nat) : cntD (l.take n) ≤ cntD l := by
+  conv => rhs; rw [← List.take_append_drop n l]
+  rw [cntD_append]; omega
+
+theorem cntD_take_mono (l : List Char) (m n : Nat) (h : m ≤ n) : cntD (l.take m) ≤ cntD (l.take n) := by
+  have : l.take m = (l.take n).take m := by rw [List.take_take]; congr; omega
+  rw [this]; exact cntD_take_le _ _
+
+theorem cntD_digits (i : Nat) : cntD (Nat.toDigits 10 i) = 0 := by
+  unfold cntD
+  rw [List.length_eq_zero_iff, List.filter_eq_nil_iff]
+  intro c hc
+  have hd := Nat.isDigit_of_mem_toDigits (by decide) (by decide) hc
+  intro h
+  have : c = '$' := by simpa using h
+  subst this
+  revert hd; decide
+
+theorem cntD_toString (i : Nat) : cntD (toString i).toList = 0 := by
+  show cntD (Nat.repr i).toList = 0
+  rw [Nat.toList_repr]; exact cntD_digits i
+
+theorem cntD_dot : cntD (".".toList) = 0 := by decide
+theorem cntD_empty : cntD ("".toList) = 0 := by decide
+
+/-- before the first `$` there is none -/
+theorem cntD_take_findIdx (cs : List Char) (idx : Nat) (h : cs.findIdx? (· == '$') = some idx) :
+    cntD (cs.take idx) = 0 := by
+  induction cs generalizing idx with
+  | nil => simp at h
+  | cons c r ih =>
+    rw [List.findIdx?_cons] at h
+    split at h
+    · cases h; rfl
+    · rename_i hc
+      cases hr : r.findIdx? (· == '$') with
+      | none => simp [hr] at h
+      | some j =>
+        simp [hr] at h
+        subst h
+        rw [List.take_succ_cons, cntD_cons, ih j hr]
+        simp [hc]
+
+theorem findIdx_drop (cs : List Char) (idx : Nat) (h : cs.findIdx? (· == '$') = some idx) :
+    ∃ r, cs.drop idx = '$' :: r := by
+  induction cs generalizing idx with
+  | nil => simp at h
+  | cons c r ih =>
+    rw [List.findIdx?_cons] at h
+    split at h
+    · rename_i hc; cases h
+      have : c = '$' := by simpa using hc
+      exact ⟨r, by simp [this]⟩
+    · cases hr : r.findIdx? (· == '$') with
+      | none => simp [hr] at h
+      | some j =>
+        simp [hr] at h
+        subst h
+        simpa using ih j hr
+
+theorem cntD_takeWhile_dropWhile (p : Char → Bool) (l : List Char) :
+    cntD (l.takeWhile p) + cntD (l.dropWhile p) = cntD l := by
+  rw [← cntD_append, List.takeWhile_append_dropWhile]
+
+theorem buildPath_fewer_dollars (path head op : String) (tail : Option String) (i : Nat)
+    (h : splitDynamicPath path = (some head, some op, tail)) :
+    countDollar (buildPath head i tail) < countDollar path := by
+  unfold splitDynamicPath at h
+  simp only at h
+  split at h
+  · cases h
+  · rename_i idx hidx
+    obtain ⟨r, hr⟩ := findIdx_drop _ _ hidx
+    have h0 := cntD_take_findIdx _ _ hidx
+    have hsplit : cntD path.toList = cntD (path.toList.take idx) + cntD (path.toList.drop idx) := by
+      rw [← cntD_append, List.take_append_drop]
+    have htw := cntD_takeWhile_dropWhile (· != '.') (path.toList.drop idx)
+    have hseg : 1 ≤ cntD ((path.toList.drop idx).takeWhile (· != '.')) := by
+      rw [hr, List.takeWhile_cons]
+      simp [cntD_cons]
+    split at h
+    · cases h
+    · rename_i hne
+      simp only [Prod.mk.injEq, Option.some.injEq] at h
+      obtain ⟨hh, _, ht⟩ := h
+      have hhead : cntD head.toList = 0 := by
+        rw [← hh, String.toList_ofList]
+        have := cntD_take_mono path.toList (idx - 1) idx (by omega)
+        omega
+      have htail : ∀ t, tail = some t → cntD t.toList + 1 ≤ cntD (path.toList.drop idx) := by
+        intro t htt
+        rw [htt] at ht
+        split at ht
+        · simp only [Option.some.injEq] at ht
+          rw [← ht, String.toList_ofList]
+          have := cntD_drop_le ((path.toList.drop idx).dropWhile (· != '.')) 1
+          omega
+        · cases ht
+      rw [countDollar_eq, countDollar_eq]
+      unfold buildPath
+      simp only
+      have hbase : cntD ((if head == "" then "" else head ++ ".") ++ toString i).toList = 0 := by
+        rw [String.toList_append, cntD_append, cntD_toString]
+        split
+        · exact cntD_empty
+        · rw [String.toList_append, cntD_append, hhead, cntD_dot]
+      cases tail with
+      | none => simp only; rw [hbase]; omega
+      | some t =>
+        simp only
+        rw [String.toList_append, String.toList_append, cntD_append, cntD_append, hbase, cntD_dot]
+        have := htail t rfl
+        omega
+
+/-- any two fuels above the number of `$` give the same result: the fuel-exhaustion branch of
+    `resolve` is not what produced it. -/
+theorem resolve_fuel_stable (sch : SchemaEval) (doc : Doc) (afs : List Doc) (n : Nat) :
+    ∀ (m : Nat) (path : String), countDollar path < n → countDollar path < m →
+      resolve sch n path doc afs = resolve sch m path doc afs := by
+  induction n with
+  | zero => intro m path h; omega
+  | succ n ih =>
+    intro m path hn hm
+    cases m with
+    | zero => omega
+    | succ m =>
+      unfold resolve
+      split
+      · rfl
+      · rfl
+      · rename_i head op tail hsp
+        have hlt : ∀ i, countDollar (buildPath head i tail) < countDollar path :=
+          fun i => buildPath_fewer_dollars path head op tail i hsp
+        have hrec : ∀ i, resolve sch n (buildPath head i tail) doc afs = resolve sch m (buildPath head i tail) doc afs :=
+          fun i => ih m _ (by have := hlt i; omega) (by have := hlt i; omega)
+        simp only [hrec]
+
+
+/-! ### arithmetic guards -/
+
+/-- `$push` `$position`: the Go computation (`len(arr)+int(p)` clamped at 0, or `int(p)` clamped at
+    `len(arr)`) for every int64 `p` (MinInt64 included): nothing leaves the int64 range, the insertion
+    index lies in `[0, len]`, and the model's expression computes the same index. -/
+theorem push_position_guard (n p : Int) (hn : 0 ≤ n ∧ n ≤ i64Max) (hp : i64Min ≤ p ∧ p ≤ i64Max) :
+    (p < 0 → i64Min ≤ n + p ∧ n + p ≤ i64Max) ∧
+    (let goIdx : Int := if p < 0 then (if n + p < 0 then 0 else n + p) else (if p > n then n else p)
+     0 ≤ goIdx ∧ goIdx ≤ n ∧
+     ((if p < 0 then (n + p).toNat else min p.toNat n.toNat : Nat) : Int) = goIdx) := by
+  unfold i64Min i64Max at *
+  refine ⟨fun h => by omega, ?_⟩
+  simp only
+  split <;> split <;> omega
+
+/-- `$push` `$slice`: for every int64 `s` and length `m`, `-int64(len)` and `len+int(s)` stay in the
+    int64 range, the re-slice bounds lie in `[0, len]`, and the model's `Nat` expressions are the
+    Go ones. -/
+theorem push_slice_guard (m s : Int) (hm : 0 ≤ m ∧ m ≤ i64Max) (hs : i64Min ≤ s ∧ s ≤ i64Max) :
+    (i64Min ≤ -m ∧ -m ≤ i64Max) ∧
+    (s > 0 → s < m → 0 ≤ s ∧ s ≤ m) ∧
+    (s < 0 → s > -m → 0 ≤ m + s ∧ m + s ≤ m ∧ i64Min ≤ m + s) ∧
+    (s < 0 → ((m.toNat - (-s).toNat : Nat) : Int) = if s > -m then m + s else 0) := by
+  unfold i64Min i64Max at *
+  refine ⟨by omega, fun _ _ => by omega, fun _ _ => by omega, fun h => ?_⟩
+  split <;> omega
+
+/-- the model's insertion index never exceeds the length, whatever `$position` is -/
+theorem push_insertAt_le {α} (arr : List α) (p : Int) :
+    (if p < 0 then ((arr.length : Int) + p).toNat else min p.toNat arr.length) ≤ arr.length := by
+  split <;> omega
+
+theorem insertAtIdx_length {α} (xs ys : List α) (i : Nat) : (insertAtIdx xs i ys).length = xs.length + ys.length := by
+  unfold insertAtIdx
+  simp only [List.length_append, List.length_take, List.length_drop]
+  omega
+
+/-- the model's `$slice` window is always a sub-range of the array -/
+theorem push_slice_window {α} (xs : List α) (s : Int) :
+    (s > 0 → (xs.take s.toNat).length = min s.toNat xs.length) ∧
+    (s < 0 → xs.length - (-s).toNat ≤ xs.length ∧
+        (xs.drop (xs.length - (-s).toNat)).length = min (-s).toNat xs.length) := by
+  refine ⟨fun _ => by simp, fun _ => ⟨by omega, ?_⟩⟩
+  rw [List.length_drop]; omega
+
+/-! #### `put` on arrays -/
+
+theorem listSet_length {α} (l : List α) (n : Nat) (x : α) : (listSet l n x).length = l.length := by
+  rw [listSet_eq_set]; simp
+
+/-- a negative index and `math.MaxInt` are rejected (the latter because `index+1` would wrap) -/
+theorem put_index_rejected (xs : List V) (key : String) (rest : Path) (value : V) (pre : Bool) (index : Int)
+    (hk : atoi key = some index) (hne : ¬(key = "" ∧ rest = [])) (hbad : index < 0 ∨ index = (maxInt : Int)) :
+    put (.arr xs) (key :: rest) value pre = .error .err := by
+  unfold put
+  have : (key == "" && rest.isEmpty) = false := by
+    cases h1 : (key == "") <;> cases h2 : rest.isEmpty <;> simp_all
+  simp only [this, hk]
+  have : (index < 0 || index == (maxInt : Int)) = true := by
+    rcases hbad with h | h
+    · simp [h]
+    · simp [h]
+  simp [this]
+
+/-- otherwise the element at `index` is written (padding with nulls up to it): the new array has
+    length `max len (index+1)`, `index+1` does not wrap, and no element outside is accessed. -/
+theorem put_index_guard (xs : List V) (key : String) (rest : Path) (value : V) (pre : Bool) (nv prev : V)
+    (h : put (.arr xs) (key :: rest) value pre = .ok (nv, prev)) :
+    ∃ (index : Int) (ys : List V), atoi key = some index ∧ 0 ≤ index ∧ index + 1 ≤ (maxInt : Int) ∧
+      nv = .arr ys ∧ ys.length = max xs.length (index.toNat + 1) := by
+  rw [put] at h
+  simp only at h
+  split at h
+  · cases h
+  · split at h
+    · cases h
+    · rename_i index hk
+      split at h
+      · cases h
+      · rename_i hguard
+        have hg : 0 ≤ index ∧ index ≠ (maxInt : Int) := by
+          simp only [Bool.or_eq_true, decide_eq_true_eq, beq_iff_eq, not_or] at hguard
+          omega
+        have hmax : index ≤ (maxInt : Int) := by
+          unfold atoi at hk
+          simp only at hk
+          repeat' split at hk
+          all_goals first | (cases hk; done) | (cases hk; unfold maxInt at *; omega)
+        refine ⟨index, ?_⟩
+        split at h
+        · rename_i hlt
+          split at h
+          · split at h
+            · cases h
+              exact ⟨_, hk, hg.1, by omega, rfl, by rw [listSet_length]; omega⟩
+            · cases h
+          · cases h
+        · rename_i hge
+          split at h
+          · cases h
+          · split at h
+            · cases h
+              refine ⟨_, hk, hg.1, by omega, rfl, ?_⟩
+              simp only [List.length_append, List.length_replicate, List.length_cons, List.length_nil]
+              omega
+            · cases h
+
+
 end Lungo
